@@ -102,6 +102,17 @@ var tlTemplates = []string{
 	"a\n  " + hA + " b",                         // 82 indented interrupting block
 	"[a]: /x\n[a]: /y\n[" + hA + "]",             // 83 competing definitions followed by a use
 	"[t][f\n" + hA + "]\n\n[f g]: /u",            // 84 full reference whose label spans two lines
+	// ---- third campaign (85..)
+	"[\x00a\x00]: /u\n\n[\x00" + hA + "\x00]",     // 85 label with two separate NULs
+	"```" + hA + hA + "\nx",                     // 86 info string bytes
+	"`a\n" + hA + "` t\nn",                      // 87 text after a multi-line code span
+	"`a\n" + hA + "\nc`",                        // 88 three-line code span
+	"[a]: b 't'\n[c]: d\n[" + hA + "]",           // 89 titled definition followed by more of the paragraph
+	"x\x00y\n> " + hA + hA,                      // 90 NUL in a block closed by the line that opens the next one
+	"> a\n  " + hA + hA,                         // 91 indented line after a block quote line
+	"-     " + hA + "\n\n- b",                   // 92 item starting with indented code, blank line, next item
+	"- [a]: b\n\n[" + hA + "]",                  // 93 definition inside a top-level list item
+	"> a <b\n> " + hA + "=\"d\">x",               // 94 multi-line inline tag inside a block quote
 }
 
 // tlQuick lists the templates with at most two holes... (kept for reference);
